@@ -185,9 +185,19 @@ def execute(pool, op):
         elif kind == "newstr":
             new = [get(pool, op[1]).copy_with_new_str(op[2])]
         elif kind == "add":
-            new = [get(pool, op[1]) + get(pool, op[2])]
+            if (op[1] + op[2]) % 2:
+                new = [get(pool, op[1]) + get(pool, op[2])]
+            else:                       # the augmented form on a second name: no in-place + on an immutable value
+                g = get(pool, op[1])
+                g += get(pool, op[2])
+                new = [g]
         elif kind == "addstr":
-            new = [get(pool, op[1]) + op[2]]
+            if len(op[2]) % 2:
+                new = [get(pool, op[1]) + op[2]]
+            else:
+                g = get(pool, op[1])
+                g += op[2]
+                new = [g]
         elif kind == "raddstr":
             new = [op[1] + get(pool, op[2])]
         elif kind == "mul":
